@@ -8,6 +8,7 @@ import (
 	"time"
 
 	formula "github.com/aundis/formula"
+	"github.com/ericlagergren/decimal"
 
 	"verif/internal/eng"
 	"verif/internal/ref"
@@ -44,10 +45,12 @@ func init() {
 		Title:       "One notion of truthiness drives every selection operator",
 		Rule:        "34 condition values (three nulls, booleans, numbers incl. 0, -0, 0.0, NaN, infinities, strings incl. '' and '0', arrays, maps, times, functions, structs) x 10 branch sentinels of every kind: !!c, !c, c?a:b, c&&b, c||b, c??b and every depth-2 nesting of two of them; branch evaluation of ?: observed through recording host functions and through local assignments; result must be the selected operand unchanged (numbers by value, arrays/maps by identity); distinct = distinct (formula shape, selected operand) classes",
 		TrustedBase: []string{"truthiness table written from the statement in checks/c06.go"},
-		Assumptions: []string{"side effects of the operands of && || ?? are not judged (only ?: must be lazy)", "a typed nil pointer has no expectation under ! (it is null for ??, as it is for member access and ===)"},
+		Assumptions: []string{"side effects of the operands of && || ?? are not judged (only ?: must be lazy)", "computed operands (results of operators and builtins) are classified by the value they are observed to have"},
 		Run:         runC06,
 	})
 	c06Sel = eng.NewKind(c, "select", judgeSel)
+	c06Obs = eng.NewKind(c, "observed", judgeObs)
+	c06Once = eng.NewKind(c, "once", judgeOnce)
 }
 
 var selVals []cval
@@ -63,9 +66,12 @@ var selArr0 = []interface{}{0.0}
 func selData() map[string]interface{} {
 	var ip *int
 	return map[string]interface{}{
-		"nil1": nil, "nilp": ip, "dnan": math.NaN(), "dinf": math.Inf(1), "dninf": math.Inf(-1), "dzero": 0.0, "dnegzero": math.Copysign(0, -1),
+		"nil1": nil, "nilp": ip, "nild": (*decimal.Big)(nil), "dnan": math.NaN(), "dinf": math.Inf(1), "dninf": math.Inf(-1), "dzero": 0.0, "dnegzero": math.Copysign(0, -1),
 		"earr": selEmptyArr, "arr0": selArr0, "emap": selEmptyMap, "map": selMap, "zt": time.Time{}, "tm": selTime, "fn": selFunc,
 		"st": zooStruct{A: 1}, "sarr": selArr, "istr": "", "i0": 0, "i5": int64(5),
+		"h0": func() (int, error) { return 0, nil }, "hf0": func() (float64, error) { return 0, nil }, "hs": func() (string, error) { return "", nil },
+		"hnil": func() (interface{}, error) { return nil, nil }, "hfalse": func() (bool, error) { return false, nil }, "hnan": func() (float64, error) { return math.NaN(), nil },
+		"h32": func() (int32, error) { return 0, nil },
 	}
 }
 
@@ -84,7 +90,8 @@ func buildSelVals() {
 	conds := []cval{
 		{Expr: "null", Null: true, Kind: "null", NegOK: true, CoalOK: true},
 		{Expr: "nil1", Null: true, Kind: "null", NegOK: true, CoalOK: true},
-		{Expr: "nilp", Null: true, Kind: "null", CoalOK: true}, // null for ?? as for member access and === (C16); `!nilp` stays unclaimed
+		{Expr: "nilp", Null: true, Kind: "null", NegOK: true, CoalOK: true}, // a typed nil pointer is null (C16)
+		{Expr: "nild", Null: true, Kind: "null", NegOK: true, CoalOK: true}, // also when it points to the number type
 		{Expr: "missing", Null: true, Kind: "null", NegOK: true, CoalOK: true},
 		{Expr: "true", Truthy: true, Kind: "bool", Bool: true, NegOK: true, CoalOK: true},
 		{Expr: "false", Kind: "bool", NegOK: true, CoalOK: true},
@@ -228,6 +235,183 @@ func judgeSel(c SelCase) *eng.Fail {
 	return nil
 }
 
+// ObsCase: a computed operand E. Its value is observed on its own ([E]); every selection operator must
+// then treat E according to the truthiness of that very value, and hand it back unchanged.
+type ObsCase struct {
+	E string `json:"e"`
+}
+
+var c06Obs *eng.Kind[ObsCase]
+
+// observedTruthiness classifies a value that came out of the evaluator: ok=false when the statement
+// has no opinion (Go kinds it does not mention).
+func observedTruthiness(v interface{}) (truthy, isNull, ok bool) {
+	switch n := v.(type) {
+	case nil:
+		return false, true, true
+	case bool:
+		return n, false, true
+	case string:
+		return n != "", false, true
+	case int:
+		return n != 0, false, true
+	case int32:
+		return n != 0, false, true
+	case int64:
+		return n != 0, false, true
+	case float64:
+		return n != 0 && n == n, false, true
+	case float32:
+		return n != 0 && n == n, false, true
+	case []interface{}, map[string]interface{}, time.Time:
+		return true, false, true
+	}
+	if d, isNum := decOf(v); isNum {
+		return !(d.NaN || (d.Finite() && d.IsZero())), false, true
+	}
+	if formula.IsNull(v) {
+		return false, true, true
+	}
+	return false, false, false
+}
+
+func sameObserved(a, b interface{}) bool {
+	da, oka := decOf(a)
+	db, okb := decOf(b)
+	if oka || okb {
+		return oka && okb && (da.NaN && db.NaN || da.Inf && db.Inf && da.Neg == db.Neg || da.Finite() && db.Finite() && da.Cmp(db) == 0)
+	}
+	if fa, ok := a.(float64); ok && fa != fa {
+		fb, ok := b.(float64)
+		return ok && fb != fb
+	}
+	return canonImpl(a) == canonImpl(b)
+}
+
+func judgeObs(c ObsCase) *eng.Fail {
+	E := "(" + c.E + ")"
+	ev := func(src string) (evalOut, *eng.Fail) {
+		p := safeParse([]byte(src))
+		if p.panicked || p.err != nil {
+			return evalOut{}, eng.F("C06/parse", "%s: %v %s", src, p.err, p.panicMsg)
+		}
+		r := formula.NewRunner()
+		r.SetThis(selData())
+		return safeResolve(r, bg, p.src.Expression), nil
+	}
+	o, f := ev("[" + E + "]")
+	if f != nil {
+		return f
+	}
+	if o.panicked {
+		return eng.F("C06/eval", "[%s]: panic %s", E, o.panicMsg)
+	}
+	if o.err != nil {
+		outcome("operand is an error")
+		return nil
+	}
+	arr, _ := o.val.([]interface{})
+	if len(arr) != 1 {
+		return eng.F("C06/eval", "[%s]: %s", E, show(o.val))
+	}
+	val := arr[0]
+	truthy, isNull, ok := observedTruthiness(val)
+	if !ok {
+		outcome("operand of a kind the statement does not mention")
+		return nil
+	}
+	o2, f := ev("[!!" + E + ", " + E + " ? 'T' : 'F', " + E + " && 'B', " + E + " || 'B', " + E + " ?? 'B', !!" + E + " === !!(" + E + "), (" + E + " ? 1 : 0) + (" + E + " ? 0 : 1)]")
+	if f != nil {
+		return f
+	}
+	if o2.panicked || o2.err != nil {
+		return eng.F("C06/eval", "selection over %s (observed value %s): %v %s", E, show(val), o2.err, o2.panicMsg)
+	}
+	got, _ := o2.val.([]interface{})
+	if len(got) != 7 {
+		return eng.F("C06/eval", "selection over %s: %s", E, show(o2.val))
+	}
+	what := fmt.Sprintf("%s evaluates to %s, which is %s", c.E, show(val), map[bool]string{true: "truthy", false: "falsy"}[truthy])
+	if got[0] != interface{}(truthy) {
+		return eng.F("C06/observed-truthiness", "%s, but !!%s = %s", what, E, show(got[0]))
+	}
+	if want := map[bool]string{true: "T", false: "F"}[truthy]; got[1] != interface{}(want) {
+		return eng.F("C06/observed-truthiness", "%s, but %s ? 'T' : 'F' = %s", what, E, show(got[1]))
+	}
+	if truthy && got[2] != interface{}("B") || !truthy && !sameObserved(got[2], val) {
+		return eng.F("C06/observed-selection", "%s, but %s && 'B' = %s", what, E, show(got[2]))
+	}
+	if !truthy && got[3] != interface{}("B") || truthy && !sameObserved(got[3], val) {
+		return eng.F("C06/observed-selection", "%s, but %s || 'B' = %s", what, E, show(got[3]))
+	}
+	if isNull && got[4] != interface{}("B") || !isNull && !sameObserved(got[4], val) {
+		return eng.F("C06/observed-selection", "%s (null: %v), but %s ?? 'B' = %s", what, isNull, E, show(got[4]))
+	}
+	outcome(fmt.Sprint("observed ", truthy, isNull))
+	return nil
+}
+
+// OnceCase: an operand with a side effect (an assignment that reads its own variable) under a selection
+// operator: whichever operand is handed back, it is the value of ONE evaluation.
+type OnceCase struct {
+	Op    string `json:"op"`    // && || ?? ?:
+	Start string `json:"start"` // initial value of $n
+	Step  string `json:"step"`  // the operand: an assignment to $n
+}
+
+var c06Once *eng.Kind[OnceCase]
+
+func judgeOnce(c OnceCase) *eng.Fail {
+	// reference: evaluate the step once on its own
+	o1, err := evalWith("$n = "+c.Start+", ["+c.Step+", $n]", map[string]interface{}{})
+	if err != nil || o1.panicked || o1.err != nil {
+		return nil // the step itself is not evaluable: nothing to compare
+	}
+	r1, _ := o1.val.([]interface{})
+	if len(r1) != 2 {
+		return eng.F("C06/eval", "reference evaluation: %s", show(o1.val))
+	}
+	stepVal := r1[0]
+	truthy, isNull, ok := observedTruthiness(stepVal)
+	if !ok {
+		return nil
+	}
+	var src string
+	selected := false // is the step the operand that is handed back?
+	switch c.Op {
+	case "&&":
+		src, selected = "("+c.Step+") && 'rhs'", !truthy
+	case "||":
+		src, selected = "("+c.Step+") || 'rhs'", truthy
+	case "??":
+		src, selected = "("+c.Step+") ?? 'rhs'", !isNull
+	case "?:":
+		src, selected = "("+c.Step+") ? 'T' : 'F'", false
+	}
+	o2, err := evalWith("$n = "+c.Start+", ["+src+", $n]", map[string]interface{}{})
+	if err != nil || o2.panicked || o2.err != nil {
+		return eng.F("C06/eval", "%s: %v %v %s", src, err, o2.err, o2.panicMsg)
+	}
+	r2, _ := o2.val.([]interface{})
+	if len(r2) != 2 {
+		return eng.F("C06/eval", "%s: %s", src, show(o2.val))
+	}
+	if selected && !sameObserved(r2[0], stepVal) {
+		return eng.F("C06/operand-evaluated-twice", "$n = %s: %s evaluates to %s on its own, but %s = %s (the selected operand's value must be handed back unchanged)", c.Start, c.Step, show(stepVal), src, show(r2[0]))
+	}
+	if c.Op == "?:" {
+		if want := map[bool]string{true: "T", false: "F"}[truthy]; r2[0] != interface{}(want) {
+			return eng.F("C06/observed-truthiness", "$n = %s: %s = %s, the condition evaluates to %s", c.Start, src, show(r2[0]), show(stepVal))
+		}
+	}
+	// the condition / left operand itself is evaluated exactly once
+	if !sameObserved(r2[1], r1[1]) {
+		return eng.F("C06/operand-evaluated-twice", "$n = %s: after %s the variable is %s, after one evaluation of %s it is %s", c.Start, src, show(r2[1]), c.Step, show(r1[1]))
+	}
+	outcome(fmt.Sprint("once ", c.Op, truthy))
+	return nil
+}
+
 // tv is an expression text with the operand the reference semantics selects.
 type tv struct {
 	text string
@@ -284,6 +468,42 @@ func runC06(w *eng.W) {
 			return -1
 		}
 		return -2
+	}
+	// computed operands: classified by the value they are observed to have
+	computed := []string{"+'0'", "-'0'", "+'5'", "+'abc'", "+''", "-'2.5'", "+'0.0'", "-'-0'", "0 * 5", "1 - 1", "0 / 5", "5 % 5", "0.1 + 0.2 - 0.3", "1e-400 * 1e-400", "0 * 1e400", "1 / 3 * 3 - 1",
+		"toInt('0')", "toInt(0.9)", "toInt('x')", "toFloat('0')", "toFloat('')", "toFloat('x')", "finite('x')", "finite(0/0)", "round(0.4)", "round(-0.4)", "roundBank(0.5)", "floor(0.9)", "ceil(-0.9)", "abs(0)", "max(0, -1)", "min(0, 1)",
+		"sqrt(0)", "ln(1)", "log(1)", "exp(-1e30)", "len('')", "len('a')", "find('abc', 'a')", "find('abc', 'z')", "trim('  ')", "left('abc', 0)", "right('abc', 0)", "mid('abc', 1, 1)", "lower('')", "replace('a', 'a', '')",
+		"toString(0)", "toString('')", "toString(null)", "join([], ',')", "join([''], ',')", "startWith('', '')", "contains('a', 'b')", "includes([], 'a')", "regexp('', '^$')", "mapToArr([], 'k')",
+		"typeof null", "typeof 0", "null == null", "1 === 2", "0 == ''", "~-1", "~0", "5 & 2", "0 | 0", "1 ^ 1", "year(tm) - 2020", "weekDay(tm)", "millSecond(zt) * 0", "i0 + 0", "i0 * 1", "i5 - 5", "dzero + 0", "dnegzero * 1",
+		"h0()", "hf0()", "hs()", "hnil()", "hfalse()", "hnan()", "h32()", "map.k - 1", "map.missing", "st.A - 1", "nilp", "nild", "this.nild", "this.missing", "$u", "($u = 0)", "($u = '')", "($u = null)", "(0, '')", "('', 0)"}
+	for _, e := range computed {
+		if !w.Take() {
+			continue
+		}
+		w.State(1)
+		w.Trans(8)
+		w.Trace(1)
+		w.Note("leg:observed", 1)
+		c := ObsCase{E: e}
+		w.Sample("observed", c)
+		c06Obs.Do(w, c)
+	}
+	// operands with a side effect: evaluated once, handed back unchanged
+	for _, op := range []string{"&&", "||", "??", "?:"} {
+		if !w.Take() {
+			continue
+		}
+		for _, start := range []string{"0", "1", "5", "(-1)", "'ab'", "''", "null", "2"} {
+			for _, step := range []string{"$n = $n + 1", "$n = $n - 1", "$n = $n - 5", "$n = $n * 2", "$n = left($n, len($n) - 1)", "$n = $n + 'x'", "$n = !$n", "$n = $n ?? 3", "$n = [$n]", "$n = $n == 0 ? 7 : 0", "$n = toInt($n) - 1"} {
+				w.State(1)
+				w.Trans(3)
+				w.Trace(1)
+				w.Note("leg:once", 1)
+				c := OnceCase{Op: op, Start: start, Step: step}
+				w.Sample("once", c)
+				c06Once.Do(w, c)
+			}
+		}
 	}
 	// single operators
 	for ci := 0; ci < selNC; ci++ {
